@@ -54,7 +54,9 @@ def main():
     names = args or sorted(os.listdir(os.path.join(V, 'benign')))
     wrong = 0
     with ThreadPoolExecutor(max_workers=7) as ex:
-        for name, bad, used in ex.map(lambda n: (lambda pp: run_one(n, pp) + (pp,))(auto_props(n) if auto else props), names):
+        # --auto together with --props: the intersection (re-running only the checks whose rules changed)
+        sel = (lambda n: [p for p in auto_props(n) if props is ALL or p in props]) if auto else (lambda n: props)
+        for name, bad, used in ex.map(lambda n: (lambda pp: run_one(n, pp) + (pp,))(sel(n)), names):
             print('%-10s %s%s' % (name, 'OK' if not bad else 'ALARM', ('   [' + ','.join(used) + ']') if auto else ''))
             for p, msg in bad:
                 print('    %s %s' % (p, msg))
